@@ -217,14 +217,30 @@ func (s *Sched) spawn(name string, daemon bool, parent *Thread, f func()) *Threa
 }
 
 func trimStack(st string) string {
+	// Keep function names and file:line only: goroutine numbers, argument
+	// values and pc offsets differ from run to run.
 	lines := strings.Split(st, "\n")
 	var out []string
 	for _, l := range lines {
-		if strings.Contains(l, "/zz_verif/vs/") || strings.Contains(l, "runtime/panic.go") || strings.Contains(l, "runtime/debug") {
+		if strings.Contains(l, "/zz_verif/vs/") || strings.Contains(l, "/zz_verif/vs.") || strings.Contains(l, "runtime/panic.go") || strings.Contains(l, "runtime/debug") ||
+			strings.HasPrefix(l, "goroutine ") || strings.HasPrefix(l, "panic(") || strings.HasPrefix(l, "created by ") || strings.TrimSpace(l) == "" {
 			continue
 		}
+		if strings.HasPrefix(l, "\t") {
+			if i := strings.LastIndex(l, " +0x"); i >= 0 {
+				l = l[:i]
+			}
+			if strings.Contains(l, "/usr/lib/go") || strings.Contains(l, "/runtime/") {
+				continue
+			}
+		} else if i := strings.LastIndex(l, "("); i >= 0 {
+			l = l[:i]
+			if strings.HasPrefix(l, "runtime.") {
+				continue
+			}
+		}
 		out = append(out, l)
-		if len(out) > 24 {
+		if len(out) > 16 {
 			break
 		}
 	}
@@ -794,4 +810,10 @@ func AccessV[T any](obj T, name string, write bool) T {
 		Access(*(*unsafe.Pointer)(unsafe.Pointer(&obj)), name, write)
 	}
 	return obj
+}
+
+// Zero resets *p to its zero value.
+func Zero[T any](p *T) {
+	var z T
+	*p = z
 }
